@@ -15,6 +15,12 @@ META = {
                    "here (same limit as C13)."),
 }
 
+# --- additions to the level description (rules added after the first version)
+META['level_text'] += ' R3: the structural clauses of the conversion pipeline that a plain saved mapping passes through on reload hold (one mapping per source mapping, appended in order, keys/repeat/absorbing carried over: C13-S2..S6 re-run).'
+META["level_note"] = "Trusted: serde_json's Serializer/Deserializer for Value (arrays, strings, numbers), rustc MIR/HIR, tmfacts. Not decided: that convert(parse(x)) is the identity on alias-free input beyond the per-field agreement and the pipeline clauses shown here (same limit as C13)."
+META["technique"] += '; re-run of the conversion-pipeline clauses (C13-S2..S6)'
+# --- end additions
+
 PARSE_KEY = "layout_parsing_formatting::parse_key_code"
 FROMSTR = "<key_codes::KeyCode as std::str::FromStr>::from_str"
 PARSE_TREE = FROMSTR + "::_parse"
